@@ -337,10 +337,30 @@ func (s *hpStats) print() {
 
 // run records one C03 trace.  It returns x/net's verdict per block so generators
 // can cross-check their own expectations.
+// hpRecycled hands out an HPACK object the way a pool does after another connection has used it: that connection had a
+// small table limit, inserted an entry, decoded a never-indexed field and went away in the middle of a header block;
+// then the object was Reset (what ReleaseHPACK / AcquireHPACK do).  To the specification it is a fresh object - whatever
+// Reset forgets shows in the trace that follows.  The HeaderField it used goes back to its pool the same way.
+func hpRecycled() *http2.HPACK {
+	hp := http2.AcquireHPACK()
+	hf := http2.AcquireHeaderField()
+	hp.SetMaxTableSize(256)
+	b := []byte{0x40, 0x01, 'a', 0x01, 'b', 0x10, 0x01, 's', 0x01, 't', 0x40, 0x01, 'c', 0x01, 'd'}
+	for i := 0; i < 2 && len(b) > 0; i++ {
+		var err error
+		if b, err = hp.Next(hf, b); err != nil {
+			break
+		}
+	}
+	http2.ReleaseHeaderField(hf)
+	hp.Reset()
+	return hp
+}
+
 func (rec *hpDecRec) run(fam string, lim int, blocks [][]byte) (xfields [][]hpField, xok []bool) {
 	rec.t++
-	srv := http2.AcquireHPACK()
-	nxt := http2.AcquireHPACK()
+	srv := hpRecycled()
+	nxt := hpRecycled()
 	defer http2.ReleaseHPACK(srv)
 	defer http2.ReleaseHPACK(nxt)
 	if lim != 4096 {
@@ -988,7 +1008,7 @@ func (rec *hpEncRec) run(fam string, nocomp, nodyn bool, ops []hpEncOp) {
 	if rec.parts > 1 && rec.t%rec.parts != rec.part {
 		return
 	}
-	hp := http2.AcquireHPACK()
+	hp := hpRecycled()
 	defer func() {
 		hp.DisableDynamicTable = false
 		hp.DisableCompression = false
@@ -1010,9 +1030,10 @@ func (rec *hpEncRec) run(fam string, nocomp, nodyn bool, ops []hpEncOp) {
 		for _, f := range op.Fields {
 			hf := http2.AcquireHeaderField()
 			hf.SetBytes([]byte(f.N), []byte(f.V))
-			http2.VerifSetSensible(hf, f.S)
+			if f.S {
+				http2.VerifSetSensible(hf, true) // (only when wanted: a recycled field object must come back plain)
+			}
 			dst = hp.AppendHeader(dst, hf, f.Store)
-			http2.VerifSetSensible(hf, false)
 			http2.ReleaseHeaderField(hf)
 			fl = append(fl, []any{ints([]byte(f.N)), ints([]byte(f.V)), f.S, f.Store})
 		}
